@@ -12,6 +12,8 @@ import (
 
 	"github.com/33cn/chain33/common/address"
 	"github.com/33cn/chain33/common/crypto"
+	ethaddr "github.com/33cn/chain33/system/address/eth"
+	"github.com/33cn/chain33/system/crypto/secp256k1eth"
 	"github.com/33cn/chain33/types"
 	"github.com/33cn/chain33/util"
 	"github.com/decred/base58"
@@ -41,13 +43,13 @@ func rawOf(addr string) ([]byte, bool) {
 }
 
 type gTx struct {
-	Kind    string `json:"kind"`    // coins | none | evm-contract | evm-para | group
-	Sender  int    `json:"sender"`  // key index (4 = blacklisted sender)
-	To      string `json:"to"`      // spelling used in tx.To (coins) or in the EVM payload
-	Pos     string `json:"pos"`     // which position is blacklisted: none | from | to | evm-contract | evm-para | group-member-N-to | group-from
+	Kind     string `json:"kind"`   // coins | none | evm-contract | evm-para | group
+	Sender   int    `json:"sender"` // key index (4 = blacklisted sender)
+	To       string `json:"to"`     // spelling used in tx.To (coins) or in the EVM payload
+	Pos      string `json:"pos"`    // which position is blacklisted: none | from | to | evm-contract | evm-para | group-member-N-to | group-from
 	Spelling string `json:"spelling"`
-	Members int    `json:"members,omitempty"`
-	BadIdx  int    `json:"bad_idx,omitempty"`
+	Members  int    `json:"members,omitempty"`
+	BadIdx   int    `json:"bad_idx,omitempty"`
 }
 
 func spell(r *lib.Rng, raw []byte) (string, string) {
@@ -81,12 +83,12 @@ type batchReq struct {
 }
 
 type txRes struct {
-	Index   int    `json:"index"`
-	Tx      gTx    `json:"tx"`
-	Height  int64  `json:"height"`
+	Index   int     `json:"index"`
+	Tx      gTx     `json:"tx"`
+	Height  int64   `json:"height"`
 	Ty      []int32 `json:"receipt_types"`
-	Pool    string `json:"pool_reply"`
-	Problem string `json:"problem,omitempty"`
+	Pool    string  `json:"pool_reply"`
+	Problem string  `json:"problem,omitempty"`
 }
 
 func runBatch(q batchReq) ([]txRes, error) {
@@ -116,6 +118,32 @@ func runBatch(q batchReq) ([]txRes, error) {
 	// fund the blacklisted key's account below the fork height would need a block; instead it pays no fee:
 	// its transactions must be refused before the fee is looked at when the rule is active.
 	blRaw2, _ := rawOf(blAddr2)
+	// funded eth-format accounts for proxied transactions (one per proxied tx: each starts at evm nonce 0)
+	ethDrv, err := crypto.Load(types.GetSignName("", types.SECP256K1ETH), -1)
+	if err != nil {
+		return nil, err
+	}
+	ethTy := types.EncodeSignID(secp256k1eth.ID, ethaddr.ID)
+	var ethKeys []crypto.PrivKey
+	var fund []*types.Transaction
+	for i := 0; i < 40; i++ {
+		k, err := ethDrv.PrivKeyFromBytes(r.Bytes(32))
+		if err != nil {
+			continue
+		}
+		ethKeys = append(ethKeys, k)
+		fund = append(fund, util.CreateCoinsTx(cfg, keys[0], address.PubKeyToAddr(ethaddr.ID, k.PubKey().Bytes()), 100*types.DefaultCoinPrecision))
+	}
+	fb, err := env.N.Build(env.Tip, fund, 0x1f00ffff, 0)
+	if err != nil {
+		return nil, fmt.Errorf("eth funding block: %v", err)
+	}
+	if err := env.N.Deliver(fb.Block, true, "p"); err != nil {
+		return nil, fmt.Errorf("eth funding block: %v", err)
+	}
+	env.Tip = env.N.LastBlock()
+	proxyAddr := cfg.GetModuleConfig().Exec.ProxyExecAddress
+	nextEth := 0
 	mkTo := func(bad bool) (to, spelling string, isEth bool) {
 		if !bad {
 			if r.Chance(50) {
@@ -152,7 +180,34 @@ func runBatch(q batchReq) ([]txRes, error) {
 		g := gTx{Sender: r.Intn(4), Pos: "none"}
 		var txs []*types.Transaction
 		bad := r.Chance(55)
-		switch k := r.Intn(100); {
+		k := r.Intn(100)
+		if k >= 80 && k < 90 && (nextEth >= len(ethKeys) || proxyAddr == "") {
+			k = 0
+		}
+		delayed := false
+		if k >= 90 {
+			// delayed transaction: a coins transfer handed to the pool's delay cache (EventAddDelayTx)
+			delayed = true
+			k = 0
+		}
+		switch {
+		case k >= 80:
+			// proxied transaction: eth-signed evm-shaped outer transaction to the proxy address whose payload carries the
+			// real (inner) chain33 transaction; the executor swaps in the inner transaction before its checks
+			g.Kind = "proxy"
+			g.Sender = 5
+			ek := ethKeys[nextEth]
+			nextEth++
+			g.To, g.Spelling, _ = mkTo(bad)
+			if bad {
+				g.Pos = "proxy-inner-to"
+			}
+			inner := util.CreateCoinsTx(cfg, nil, g.To, 1e5)
+			inner.To = g.To
+			act := &types.EVMContractAction4Chain33{Para: types.Encode(inner)}
+			outer := &types.Transaction{Execer: []byte("evm"), Payload: types.Encode(act), To: proxyAddr, Nonce: 0, Fee: 2e6, ChainID: cfg.GetChainID()}
+			outer.Sign(ethTy, ek)
+			txs = []*types.Transaction{outer}
 		case k < 35:
 			g.Kind = "coins"
 			if bad && r.Chance(30) {
@@ -168,6 +223,9 @@ func runBatch(q batchReq) ([]txRes, error) {
 			tx.To = g.To
 			tx.Sign(types.SECP256K1, keys[g.Sender])
 			txs = []*types.Transaction{tx}
+			if delayed {
+				g.Kind = "delay"
+			}
 		case k < 50:
 			g.Kind = "none"
 			if bad {
@@ -238,7 +296,9 @@ func runBatch(q batchReq) ([]txRes, error) {
 		}
 		// pool: rejects at every height
 		var sendErr error
-		if len(txs) == 1 {
+		if g.Kind == "delay" {
+			_, sendErr = env.N.API.SendDelayTx(&types.DelayTx{Tx: txs[0], EndDelayTime: env.Tip.BlockTime + 1000000 + int64(i)}, true)
+		} else if len(txs) == 1 {
 			_, sendErr = env.N.API.SendTx(txs[0])
 		} else {
 			grp := &types.Transactions{Txs: txs}
@@ -272,7 +332,9 @@ func run(c *lib.Ctx) {
 		"with the blacklisted account as sender, recipient, EVM target or recipient of member i, written in every spelling the address drivers accept (base58; 0x lower/upper/mixed, 0X prefix, no prefix; the base58 account's bytes in hex); " +
 		"each is executed through the real EventExecTxList at heights fork-2..fork+2 and submitted to the real mempool. Oracle from the generator's ground truth: at heights >= fork every receipt of such a transaction (all members of such a group) must be ExecErr; the pool must refuse it at any height. " +
 		"non-trivial = transaction touching a blacklisted account; distinct = (kind, position, spelling, height>=fork)")
-	c.Assume("main chain only (real-recipient differs from recipient only on parachains)", "proxied EVM transactions and delayed transactions are not generated in this version (they need the evm plugin's signature/nonce environment)")
+	c.Assume("main chain only (real-recipient differs from recipient only on parachains)",
+		"proxied transactions: eth-signed outer transaction to the configured proxy address carrying an inner coins transfer (the evm executor itself is not part of this repository); delayed transactions: submitted through EventAddDelayTx (the block-embedded none/CommitDelayTx route is not driven)",
+		"the pool of this repository refuses every transaction of the evm executor (ErrExecNameNotAllow: the evm plugin is not part of it), so for evm-shaped and proxied transactions only the block-execution clause is decided; the pool clause is vacuous for them")
 	n := c.N(900, 30000)
 	per := 150
 	nb := (n + per - 1) / per
@@ -298,6 +360,19 @@ func run(c *lib.Ctx) {
 				pos = "group-member-to"
 			}
 			c.Case(fmt.Sprintf("%s/%s/%s/%v", r.Tx.Kind, pos, r.Tx.Spelling, r.Height >= forkH), hit, map[string]any{"tx": r.Tx, "height": r.Height, "receipt_types": r.Ty, "pool": r.Pool})
+			if r.Tx.Kind == "proxy" || r.Tx.Kind == "delay" {
+				c.Count(r.Tx.Kind+"_txs", 1)
+				if !hit && r.Pool == "accepted" {
+					c.Count("clean_"+r.Tx.Kind+"_accepted_by_pool", 1)
+				}
+				if !hit && r.Tx.Kind == "proxy" {
+					for _, t := range r.Ty {
+						if t == types.ExecOk {
+							c.Count("clean_proxy_executed_ok", 1)
+						}
+					}
+				}
+			}
 			if hit {
 				c.Count("txs_touching_blacklist", 1)
 				c.Seen("positions", pos)
@@ -325,6 +400,8 @@ func run(c *lib.Ctx) {
 	c.RequireEvents("txs_touching_blacklist", 200)
 	c.RequireEvents("clean_txs_executed", 100)
 	c.RequireEvents("clean_txs_accepted_by_pool", 50)
+	c.RequireEvents("clean_proxy_executed_ok", 5)
+	c.RequireEvents("clean_delay_accepted_by_pool", 5)
 }
 
 func main() { lib.Main("C31", "exploration", run) }
